@@ -43,9 +43,9 @@ type c16Conn struct {
 }
 
 type c16World struct {
-	// headStart: number of messages of the first connection that drive forwards
-	// before it touches the other connections (0 = none).
-	headStart        int
+	// advanced: connections whose first messages were forwarded by advance
+	// already (drive does not wait for a first message of theirs).
+	advanced         map[*c16Conn]bool
 	c                *core.Case
 	nodes            []*vnet.Node
 	conns            []*c16Conn
@@ -75,6 +75,9 @@ func (w *c16World) drive(cs []*c16Conn, lockstep bool, failAt int) {
 	forwarded := map[*c16Conn]int{}
 	sentBy := map[*wire.End]int{}
 	for _, cc := range cs {
+		if w.advanced[cc] {
+			continue
+		}
 		for _, e := range []*wire.End{cc.conn.A, cc.conn.B} {
 			if err := e.WaitParked(1); err != nil && err == wire.ErrInconclusive {
 				w.inconcl = true
@@ -95,29 +98,7 @@ func (w *c16World) drive(cs []*c16Conn, lockstep bool, failAt int) {
 			break
 		}
 		pick := 0
-		if w.headStart > 0 && forwarded[cs[0]] < w.headStart {
-			// Head start: the first connection gets its first messages through
-			// before anything of the others is forwarded.
-			var own []src
-			for _, s := range ready {
-				if s.cc == cs[0] {
-					own = append(own, s)
-				}
-			}
-			if len(own) > 0 {
-				ready = own
-			} else {
-				w.headStart = 0
-			}
-		}
-		if w.headStart > 0 && forwarded[cs[0]] < w.headStart {
-			pick = 0
-			for i, s := range ready {
-				if sentBy[s.end] < sentBy[ready[pick].end] {
-					pick = i
-				}
-			}
-		} else if lockstep {
+		if lockstep {
 			// Lock-step: always the end that has forwarded the fewest messages so far.
 			for i, s := range ready {
 				if sentBy[s.end] < sentBy[ready[pick].end] {
@@ -167,6 +148,44 @@ func (w *c16World) drive(cs []*c16Conn, lockstep bool, failAt int) {
 			w.closeEnds(cc, true, true)
 		} else {
 			w.log("  setup n%d->n%d completed (labels %d/%d)", cc.a, cc.b, cc.conn.A.Link.SwitchLabel(), cc.conn.B.Link.SwitchLabel())
+		}
+	}
+}
+
+// advance forwards the first n handshake messages of one connection, taking
+// turns between its two ends, and leaves the setup open.
+func (w *c16World) advance(cc *c16Conn, n int) {
+	A, B := cc.conn.A, cc.conn.B
+	for _, e := range []*wire.End{A, B} {
+		if err := e.WaitParked(1); err != nil && err == wire.ErrInconclusive {
+			w.inconcl = true
+			return
+		}
+	}
+	if w.advanced == nil {
+		w.advanced = map[*c16Conn]bool{}
+	}
+	w.advanced[cc] = true
+	sent := map[*wire.End]int{}
+	for k := 0; k < n; k++ {
+		var from, to *wire.End
+		for _, p := range [][2]*wire.End{{A, B}, {B, A}} {
+			if p[0].Parked() > 0 && (from == nil || sent[p[0]] < sent[from]) {
+				from, to = p[0], p[1]
+			}
+		}
+		if from == nil {
+			return
+		}
+		msg := from.Take(0)
+		sent[from]++
+		prev := to.Parked()
+		if to.Write(msg) != nil {
+			return
+		}
+		if err := to.WaitReaction(prev); err != nil {
+			w.inconcl = true
+			return
 		}
 	}
 }
